@@ -22,7 +22,7 @@ META = dict(
          'generate_rays / trace call compared with the launch definition; non-trivial = finite rays; distinct = '
          'rounded (origin, direction) of the rim ray',
     exhaustive=True,
-    bounds=dict(quick='words depth<=2 over 6 symbols x every stop x 36 configurations (valid and invalid) x 6 fields x '
+    bounds=dict(quick='words depth<=2 over 6 symbols (+ the 36 depth-3 words behind a leading mirror) x every stop x 36 configurations (valid and invalid) x 6 fields x '
                       '25 pupil points; all 11 distributions x counts {1..7}; vignetting menu {0,0.2,0.5}^2',
                 thorough='depth<=3, 4 numeric variants'),
     tolerances=dict(algebraic='1e-9 relative'),
@@ -37,7 +37,11 @@ def units(tier, variant):
     A = c04.alphabet(variant)[:6]
     depth = 2 if tier == 'quick' else 3
     out = []
-    for w in LZ.words(A, 1, depth):
+    ws = list(LZ.words(A, 1, depth))
+    if tier == 'quick':
+        # depth-3 words behind a leading mirror (virtual entrance pupils in front of the launch plane arise here)
+        ws += [w for w in LZ.words(A, 3, 3) if w[0] == 4]
+    for w in ws:
         for s in range(len(w)):
             out.append(dict(kind='word', word=list(w), stop=s, variant=variant))
     out.append(dict(kind='distributions', variant=variant))
